@@ -1,11 +1,12 @@
 # orchestrator configuration of the C01 check (loaded by tools/props.py)
-from stack import FULL_STACK, FULL_DEPS
+from stack import FULL_STACK, FULL_DEPS, QUIC_STACK, QUIC_DEPS
 
 SPEC = dict(
     pkg="./harness/c01",
-    # strata 1/2 need noise + tls (+ upgrader, yamux, multistream); stratum 3 runs whole nodes
-    instrument=FULL_STACK,
-    deps=FULL_DEPS,
+    # strata pipe / upgrader need noise + tls (+ upgrader, yamux, multistream); strata swarm / quic run whole nodes
+    # (quic: p2p/transport/quic + quicreuse + quic-go as tasks of the scheduler over simnet's UDP model)
+    instrument=FULL_STACK + QUIC_STACK,
+    deps=FULL_DEPS + QUIC_DEPS,
     level="fault_enumeration",
     level_text=("one adversarial action per run against real Noise / TLS handshakes, placed by the tape: a frame-aware man in the "
                 "middle edits handshake frame #i of one direction (every byte position of every Noise message 1-3 and of every TLS "
@@ -19,21 +20,30 @@ SPEC = dict(
                 "no run-index based enumeration is possible because a run is a pure function of its tape."),
     level_note=("trusted: testing/synctest, simnet's TCP model, flynn/noise and crypto/tls as the cryptographic cores (their AEAD / "
                 "transcript checks are what refuses most wire edits; the go-libp2p code around them is what the oracles exercise); "
-                "not simulated: QUIC / WebTransport / WebRTC (they reuse the same Identity.ConfigForPeer resp. Noise SessionTransport), "
-                "OS sockets. Excluded as 'not handshake data' per TLS 1.3: legacy version bytes of the first record of each direction, "
+                "not simulated: WebTransport / WebRTC (they reuse the same Identity.ConfigForPeer resp. Noise SessionTransport), OS sockets; "
+                "QUIC: the real transport runs (dial, listener, hole punching) but its wire is not edited by a man in the middle and no "
+                "Byzantine QUIC endpoint exists - forged certificates are covered on TLS-over-TCP, which shares PubKeyFromCertChain; "
+                "the crypto/tls handshake goroutine that quic-go starts is stdlib code and joins the scheduler only at the callbacks "
+                "(counted in goroutines_outside_scheduler_that_yielded); under simrand TLS uses the X25519 key share (tlsmlkem=0), "
+                "because ML-KEM key generation cannot be seeded. Excluded as 'not handshake data' per TLS 1.3: legacy version bytes of the first record of each direction, "
                 "dummy ChangeCipherSpec records. Length fields of frames whose length depends on crypto randomness are changed by "
                 "+-1..3 / +256 / halved instead of XORed, and a flip inside a ClientHello's ML-KEM key share keeps the coefficients "
                 "in range (otherwise the shape of a run would depend on crypto/rand, which Go does not let a test pin)."),
     technique=("deterministic simulation with fault injection: frame-aware man in the middle / Byzantine peer against the real "
-               "Noise and TLS transports, upgrader and swarm on simnet; identity, expectation, refusal and prologue oracles"),
+               "Noise and TLS transports, upgrader, swarm and QUIC transport (incl. hole punching, UDP loss / duplication / reordering / "
+               "partition) on simnet; identity, expectation, refusal and prologue oracles"),
     design_ref="DESIGN.md section 6 (C01)",
     quick_s=50, thorough_s=900,
-    rule=("one run = one tape: stratum (16 raw pipe : 3 upgrader : 1 swarm); pipe: kind (configuration matrix | wire edit | splice of "
+    rule=("one run = one tape: stratum (13 raw pipe : 3 quic : 3 upgrader : 1 swarm); pipe: kind (configuration matrix | wire edit | splice of "
           "two sessions | replay | Byzantine peer) x Noise|TLS x identity key type per side x expectation per side x Noise session "
           "options (prologue pairing, DisablePeerIDCheck, early data) x link chunking (whole; fragment/tiny only when every length "
           "on the wire is a function of the tape) x edit (kind, direction, frame, position, mask, amount) resp. forged-credential "
           "variant; upgrader: security lists per side x expectation x edit of a multistream-select frame; swarm: A dials P at the "
-          "address of honest Q with real or non-checking security transport. non-trivial = an edit fired, a Byzantine credential was "
+          "address of honest Q with real or non-checking security transport; quic: scenario (A dials P where a node with another "
+          "key listens | A hole-punches towards (X, P) while the node with another key that owns X dials in | the same with the right "
+          "peer | control) x DialPeer vs transport.Dial x key type of A, of the owner of X and of P x UDP faults (none | loss 3-30 %, "
+          "duplication, reordering | partition healing after 0.3-8 s) x when the other node dials in x address taken over from a closed "
+          "node. non-trivial = an edit fired, a Byzantine credential was "
           "presented, a peer-ID or prologue mismatch was refused, or the swarm dialed a wrong-peer address; distinct = distinct "
           "(scheduler decision hash, configuration, plan incl. position, per-side outcomes)"),
     probes=["peer-id-mismatch-noise-initiator", "peer-id-mismatch-noise-responder", "peer-id-mismatch-tls-initiator",
@@ -46,16 +56,22 @@ SPEC = dict(
             "edit-tls-R>I#0", "edit-tls-R>I#1", "edit-tls-R>I#2", "edit-tls-R>I#3", "edit-tls-R>I#4", "edit-tls-R>I#5",
             "concurrent-sessions-of-one-transport-complete", "upgrader-clean", "upgrader-peer-id-mismatch-initiator", "upgrader-peer-id-mismatch-responder", "mss-edit-survived",
             "mss-steered-to-other-protocol", "swarm-dial-right-peer", "swarm-dial-wrong-peer-refused-by-handshake",
-            "swarm-recheck-is-last-defence", "tls-invalid-self-signature-accepted"],
+            "swarm-recheck-is-last-defence", "tls-invalid-self-signature-accepted",
+            "quic-wrong-peer-swarm-refused", "quic-wrong-peer-transport-refused", "quic-punch-wrong-swarm-refused",
+            "quic-punch-wrong-transport-refused", "quic-punch-right-swarm-connected", "quic-punch-right-transport-connected",
+            "quic-control-swarm-connected", "quic-control-transport-connected", "quic-intruder-during-punch-accepted-as-itself",
+            "quic-fresh-dial-after-faults"],
     real=["ALL go-libp2p code below runs as tasks of the seeded scheduler (instrumented: every lock, channel operation, select, go statement is a scheduling point)",
           "p2p/security/noise: Transport and SessionTransport (Prologue, DisablePeerIDCheck, EarlyData), handshake, session read/write",
           "p2p/security/tls: Transport, Identity.ConfigForPeer, PubKeyFromCertChain, GenerateSignedExtension",
           "core/crypto: Ed25519, ECDSA, Secp256k1, RSA-2048 identities; core/peer ID derivation",
           "p2p/net/upgrader: multistream-select security negotiation, Upgrade, muxer negotiation; go-multistream, go-yamux (instrumented copies)",
           "p2p/net/swarm dial path (DialPeer, dial worker, dialAddr), p2p/transport/tcp dial path, pstoremem, eventbus (stratum swarm)",
+          "p2p/transport/quic (Dial, holePunch, listener Accept / wrapConn), p2p/transport/quicreuse, quic-go (instrumented copy) over simnet's UDP model (stratum quic)",
           "github.com/flynn/noise, crypto/tls, crypto/x509 (un-instrumented cryptographic cores)"],
-    stubs=["wire: simnet TCP model with Mallory as chunk hook", "Byzantine peer: hand-written Noise XX / crypto/tls endpoint with forged credentials",
+    stubs=["wire: simnet TCP model with Mallory as chunk hook", "wire (quic): simnet UDP model, datagram fates drawn from the tape", "Byzantine peer: hand-written Noise XX / crypto/tls endpoint with forged credentials",
            "stratum swarm, lax variant: a security transport that ignores the peer it was asked for (DisablePeerIDCheck / TLS config for any peer)"],
-    assume=["virtual clock of testing/synctest", "crypto/rand is not pinned: key bytes, nonces, ciphertext and DER lengths never reach the trace",
+    assume=["virtual clock of testing/synctest", "stratum quic: crypto/rand replaced by simrand's seeded stream, math/rand global seeded per run (go:debug randseednop=0)",
+            "TCP strata: crypto/rand is not pinned: key bytes, nonces, ciphertext and DER lengths never reach the trace",
             "RSA identity keys are generated once per process; the other identity keys are fixed scalars"],
 )
